@@ -2,10 +2,12 @@
    Theorems: the gather index of the bit-exact model addresses a source pixel for EVERY coordinate pair (NaN,
    infinities, negative, huge) and every source size up to 16384 x 16384; over Q: bilinear samples stay in the
    hull of the four sampled values and reproduce constants, the bicubic weights sum to one, clamp_0 + clamp_a
-   leave a valid premultiplied colour, the tiling functions stay inside the image.  Which source pixel a device
-   pixel maps to (the float coordinate pipeline) is tied by the f64 oracle (DESIGN.md, C16 partial). *)
+   leave a valid premultiplied colour, the tiling functions stay inside the image.  For a whole-pixel translation
+   (draw_pixmap at integer offsets, Pad) the bit-exact binary32 chain seed_shader -> transform -> gather reads
+   exactly the source pixel at the mapped position (C16_nearest_translate_exact).  For other transforms the
+   source pixel is tied by the f64 oracle (DESIGN.md, C16 partial). *)
 From Coq Require Import ZArith QArith Qabs List.
-From TS Require Import Base.F32 Model.Sampler Proofs.SamplerProofs Proofs.SamplerIdeal.
+From TS Require Import Base.F32 Model.WideBackends Model.Sampler Model.Nearest Proofs.SamplerProofs Proofs.SamplerIdeal Proofs.NearestCopy.
 Import ListNotations.
 
 Theorem C16_gather_ix_in_bounds :
@@ -44,6 +46,20 @@ Proof. exact exclusive_repeat_range. Qed.
 Theorem C16_exclusive_reflect_range :
   forall v limit, 0 < limit -> 0 <= exclusive_reflect v limit /\ exclusive_reflect v limit <= limit.
 Proof. exact exclusive_reflect_range. Qed.
+
+(* draw_pixmap / Pattern(Pad, Nearest) with a whole-pixel translation (tx, ty): destination pixel (dx + lane, dy),
+   walked by the pipeline as lane [lane] of the batch starting at dx, whose mapped position lies on the w x h source,
+   reads source pixel (dx + lane - tx, dy - ty) -- on every backend, bit-exact binary32 arithmetic included *)
+Theorem C16_nearest_translate_exact :
+  forall b w h tx ty dx lane dy,
+  (1 <= w <= 16384 -> 1 <= h <= 16384 -> Z.abs tx < 2097152 -> Z.abs ty < 2097152 ->
+   0 <= dx < 2097152 -> 0 <= lane <= 7 -> 0 <= dy < 2097152 ->
+   0 <= dx + lane - tx < w -> 0 <= dy - ty < h ->
+   nearest_ix b 0 w h (F32.of_Z tx) (F32.of_Z ty) dx lane dy = (dy - ty) * w + (dx + lane - tx))%Z.
+Proof. exact nearest_translate_exact. Qed.
+(* non-vacuity: the hypotheses hold for w=5, h=3, tx=7, ty=1, dx=8, lane=2, dy=2, and the model evaluates to (2-1)*5 + 3 *)
+Example C16_nearest_example : nearest_ix SSE2 0 5 3 (F32.of_Z 7) (F32.of_Z 1) 8 2 2 = 8%Z.
+Proof. vm_compute. reflexivity. Qed.
 
 (* non-vacuity: a NaN x and an out-of-range y on a 5 x 3 image address pixel (0, 2) *)
 Example C16_example : gather_ix F32.nan (F32.of_Z 1000000) 5 3 = 10%Z.
